@@ -12,7 +12,7 @@ use crate::exch_run::{replay_exchange, run_exchanges};
 use crate::gen::*;
 use crate::refmodel::framing::{decide, Framing};
 
-pub const RULE: &str = "full product: request version {1.0,1.1} x request Connection {absent, close, keep-alive, keep-alive+close as two fields} x request kind {GET, HEAD, POST with Content-Length, POST with Expect} x Expect outcome {100 received / late 100 after give-up, silent server + give-up, refused bare, refused with fields} x response version {1.0,1.1} x status {200,204,304,404,302 with Location} x response framing {none, Content-Length: 0, Content-Length: 3, chunked} x response Connection {absent, close, keep-alive, keep-alive+close}; every cell explored through the real flow under all mixtures of whole-message and 1-byte arrivals (quick: whole-message arrivals + give-up at every point), verdict read in the Redirect state and in Cleanup. distinct = distinct (cell, final observation) pairs";
+pub const RULE: &str = "full product: request version {1.0,1.1} x request Connection {absent, close, keep-alive, keep-alive+close as two fields} x request kind {GET, HEAD, POST with Content-Length, POST with Expect} x Expect outcome {100 received / late 100 after give-up, silent server + give-up, refused bare, refused with fields} x response version {1.0,1.1} x status {200,204,304,404,302 with Location} x response framing {none, Content-Length: 0, Content-Length: 3, chunked} x response Connection {absent, close, keep-alive, keep-alive+close}; every cell explored through the real flow under all mixtures of whole-message and 1-byte arrivals (quick: whole-message arrivals + give-up at every point), verdict read in the Redirect state and in Cleanup; part b: every prefix, cut after the complete Location line, of 3xx heads with Connection / framing fields before and after the Location line (3 methods x 3 statuses x 7 x 4 field sets x every cut): whenever the library accepts such a prefix as a complete response (known finding KF1 of C05) the exchange must end must-close. distinct = distinct (cell, final observation) pairs";
 
 pub fn build(tier: Tier) -> Vec<Arc<ExchCfg>> {
     let mut out = Vec::new();
@@ -82,6 +82,110 @@ pub fn build(tier: Tier) -> Vec<Arc<ExchCfg>> {
     out
 }
 
+/// Part b: "a connection whose message boundaries were lost is never offered for reuse".
+/// The library deliberately accepts a 3xx head that is cut after its Location line (known finding
+/// KF1 of C05). Whenever it does, the exchange must end must-close, whatever Connection fields
+/// the part of the head seen so far carried.
+fn lost_boundary_cell(method: &str, status: u16, before: &[&str], after: &[&str], p_rel: usize) -> Result<Option<String>, (String, String)> {
+    use crate::driver::AnyFlow;
+    let mut head = format!("HTTP/1.1 {} Moved\r\n", status);
+    for f in before {
+        head.push_str(f);
+        head.push_str("\r\n");
+    }
+    head.push_str("Location: /next\r\n");
+    let loc_end = head.len();
+    for f in after {
+        head.push_str(f);
+        head.push_str("\r\n");
+    }
+    head.push_str("\r\n");
+    let h = head.as_bytes();
+    let p = loc_end + p_rel;
+    if p >= h.len() {
+        return Ok(None);
+    }
+    let mut f = crate::props::flows::recv_response_flow(method);
+    let (n, resp) = match f.try_response(&h[..p]) {
+        Err(_) => return Ok(Some("error".into())),
+        Ok(x) => x,
+    };
+    if resp.is_none() {
+        return Ok(Some("need-more".into()));
+    }
+    // the library consumed a partial head: the rest of the stream can no longer be framed
+    let rest = &h[n..];
+    let mut cur = AnyFlow::RecvResponse(f).proceed().map_err(|e| ("C10:lost-boundary:harness".to_string(), e))?.ok_or(("C10:lost-boundary:harness".to_string(), "cannot leave RecvResponse".to_string()))?;
+    let mut verdicts: Vec<(String, bool)> = Vec::new();
+    let mut guard = 0;
+    loop {
+        guard += 1;
+        if guard > 10 {
+            return Err(("C10:lost-boundary:harness".into(), format!("stuck in {}", cur.name())));
+        }
+        cur = match cur {
+            AnyFlow::RecvBody(mut b) => {
+                let mut out = [0u8; 64];
+                let _ = b.read(rest, &mut out);
+                if !b.can_proceed() {
+                    // the mis-framed body never completes: the caller can only drop the connection - nothing is offered for reuse
+                    return Ok(Some("body-never-completes".into()));
+                }
+                AnyFlow::RecvBody(b).proceed().map_err(|e| ("C10:lost-boundary:harness".to_string(), e))?.ok_or(("C10:lost-boundary:harness".to_string(), "body proceed".to_string()))?
+            }
+            AnyFlow::Redirect(r) => {
+                verdicts.push(("Redirect".into(), r.must_close_connection()));
+                AnyFlow::Cleanup(r.proceed())
+            }
+            AnyFlow::Cleanup(c) => {
+                verdicts.push(("Cleanup".into(), c.must_close_connection()));
+                break;
+            }
+            o => return Err(("C10:lost-boundary:harness".into(), format!("unexpected state {}", o.name()))),
+        };
+    }
+    for (st, must) in &verdicts {
+        if !must {
+            return Err(("C10:lost-boundary:offered-for-reuse".into(), format!("{} request: the {}-byte prefix {:?} of a {}-byte 3xx head was accepted as a complete response (message boundary lost), yet the {} state reports the connection reusable", method, p, crate::engine::show(&h[..p]), h.len(), st)));
+        }
+    }
+    Ok(Some("accepted-partial-head-must-close".into()))
+}
+
+fn lost_boundary_sweep(rep: &mut Report) {
+    let befores: [&[&str]; 7] = [&[], &["Connection: keep-alive"], &["Connection: close"], &["connection: Keep-Alive", "X-A: 1"], &["Content-Length: 3"], &["Transfer-Encoding: chunked", "Connection: keep-alive"], &["Connection: keep-alive", "Connection: keep-alive"]];
+    let afters: [&[&str]; 4] = [&["Content-Length: 0"], &["Connection: keep-alive", "Set-Cookie: a=b"], &["Connection: close"], &["X-Long: aaaaaaaaaaaaaaaa", "Content-Length: 0"]];
+    let mut accepted = 0u64;
+    for method in ["GET", "HEAD", "POST"] {
+        for status in [301u16, 302, 307] {
+            for b in befores {
+                for a in afters {
+                    for p_rel in 0..80usize {
+                        rep.evaluations += 1;
+                        rep.transitions += 3;
+                        let r = match crate::engine::guarded(|| lost_boundary_cell(method, status, b, a, p_rel)) {
+                            Ok(r) => r,
+                            Err(pn) => Err((format!("C10:lost-boundary:panic:{}", crate::engine::panic_site(&pn)), pn)),
+                        };
+                        match r {
+                            Ok(None) => {}
+                            Ok(Some(c)) => {
+                                if c.starts_with("accepted") {
+                                    accepted += 1;
+                                }
+                                rep.distinct_hash(&("lost-boundary", method, status, b.len(), a.len(), c));
+                            }
+                            Err((key, what)) => rep.violation(crate::engine::Violation { key, ord: 50_000_000 + p_rel as u64, what, replay: serde_json::json!({"kind": "lost-boundary", "method": method, "status": status, "before": b, "after": a, "p_rel": p_rel}) }),
+                        }
+                    }
+                }
+            }
+        }
+    }
+    rep.extra("lost_boundary_partial_heads_accepted", serde_json::json!(accepted));
+    rep.sample(serde_json::json!({"part": "lost-boundary", "head": "HTTP/1.1 302 Moved\r\nConnection: keep-alive\r\nLocation: /next\r\n | cut here | Content-Length: 0\r\n\r\n", "expect": "if accepted as complete: must-close in Redirect and Cleanup"}));
+}
+
 pub fn run(tier: Tier) -> Report {
     let cfgs = build(tier);
     crate::engine::WD_LIMIT_S.store(120, std::sync::atomic::Ordering::Relaxed);
@@ -89,10 +193,19 @@ pub fn run(tier: Tier) -> Report {
     let mut rep = run_exchanges(cfgs, &lim, false, |c| c.to_json());
     let fs = rep.extra.get("final_states").and_then(|v| v.as_u64()).unwrap_or(0);
     rep.guard("final states reached", fs > 0);
+    lost_boundary_sweep(&mut rep);
     rep
 }
 
 pub fn replay(v: &Value) -> Result<Option<String>, String> {
+    if v["kind"].as_str() == Some("lost-boundary") {
+        let strs = |x: &Value| -> Vec<String> { x.as_array().map(|a| a.iter().map(|s| s.as_str().unwrap_or("").to_string()).collect()).unwrap_or_default() };
+        let b = strs(&v["before"]);
+        let a = strs(&v["after"]);
+        let br: Vec<&str> = b.iter().map(|s| s.as_str()).collect();
+        let ar: Vec<&str> = a.iter().map(|s| s.as_str()).collect();
+        return Ok(lost_boundary_cell(v["method"].as_str().ok_or("method")?, v["status"].as_u64().ok_or("status")? as u16, &br, &ar, v["p_rel"].as_u64().ok_or("p_rel")? as usize).err().map(|(k, w)| format!("[{}] {}", k, w)));
+    }
     let tier = if v["tier"].as_str() == Some("thorough") { Tier::Thorough } else { Tier::Quick };
     let cfgs = build(tier);
     let i = v["cfg_index"].as_u64().ok_or("cfg_index")? as usize;
